@@ -126,6 +126,8 @@ def exhaustive(tier):
                 yield list(seq)
 
     yield (f"all op sequences of length<={n} over the 8-key universe (set/delete/delete_subtrie)", gen())
+    yield ("deep comb: 40-byte keys leaving a common spine at 300 different bit positions",
+           iter([[("deepcomb", ("lit", b"\x00"), b"", 300)]]))
 
 
 def resolve_arg(spec, model):
@@ -210,8 +212,43 @@ def check_reads(t, model, keys, full):
             expect_eq("getitem-matches-model", got, want, f"trie[{k!r}]")
 
 
+def _run_deep(case, info):
+    """A trie whose longest root-to-leaf path has hundreds of nodes (keys longer than 32 bytes)."""
+    import sys
+
+    n = case[0][3]
+    spine = int.from_bytes(bytes(range(7, 47)), "big")
+    nbits = 40 * 8
+    keys = [(spine ^ (1 << (nbits - 1 - i))).to_bytes(40, "big") for i in range(n)]
+    db = {}
+    t = impl("construct", BinaryTrie, db)
+    model = {}
+    for i, k in enumerate(keys):
+        impl("only-NodeOverrideError", t.set, k, b"value-%d" % i)
+        model[k] = b"value-%d" % i
+    old = sys.getrecursionlimit()
+    sys.setrecursionlimit(max(old, 5000))  # the reference builder recurses once per level
+    try:
+        ref = RefBin(model)
+    finally:
+        sys.setrecursionlimit(old)
+    expect_eq("root-is-canonical", bytes(t.root_hash), ref.root_hash, f"root of the {n}-key deep comb")
+    for k in keys[::7] + keys[-3:]:
+        check_reads(t, model, [k, k[:-1] + bytes([k[-1] ^ 1])], True)
+    for k in keys[n // 2:]:
+        impl("only-NodeOverrideError", t.delete, k)
+        del model[k]
+    for k in keys[::5]:
+        check_reads(t, model, [k], False)
+    info.label("deep-comb")
+    info.nontrivial = True
+    return info
+
+
 def run_case(case):
     info = Info()
+    if case and case[0][0] == "deepcomb":
+        return _run_deep(case, info)
     db = {}
     t = impl("construct", BinaryTrie, db)
     model = {}
